@@ -45,7 +45,7 @@ PROPS = {
     "C07": dict(level="fault_enumeration", race=False, quick_count=300, quick_budget=40, thorough_budget=600),
     "C08": dict(level="exploration", race=False, quick_count=4000, quick_budget=40, thorough_budget=600),
     "C09": dict(level="exploration", race=False, quick_count=4000, quick_budget=40, thorough_budget=600),
-    "C10": dict(level="fault_enumeration", race=True, quick_count=60, quick_budget=40, thorough_budget=600),
+    "C10": dict(level="fault_enumeration", race=True, quick_count=300, quick_budget=40, thorough_budget=600),
     "C12": dict(level="exploration", race=False, quick_count=8000, quick_budget=40, thorough_budget=600),
     "C13": dict(level="fault_enumeration", race=True, quick_count=60, quick_budget=40, thorough_budget=600),
     "C18": dict(level="exploration", race=False, quick_count=1500, quick_budget=40, thorough_budget=600),
@@ -130,7 +130,7 @@ def run_workers(binary, prop, tier, seed, nshards, count, budget, extra_env=None
         p = subprocess.Popen([binary, "-test.run", "^TestWorker$", "-test.timeout", "0", "-test.count", "1"], env=e, cwd=tmpdir,
                              stdout=subprocess.PIPE, stderr=subprocess.STDOUT, text=True)
         procs.append((sh, p, out))
-    results, trouble = [], []
+    results, trouble, races = [], [], []
     deadline = time.time() + budget * 3 + 300
     for sh, p, out in procs:
         try:
@@ -140,10 +140,22 @@ def run_workers(binary, prop, tier, seed, nshards, count, budget, extra_env=None
             so, _ = p.communicate()
             trouble.append("worker %d: watchdog expired\n%s" % (sh, so[-2000:]))
             continue
+        if "WARNING: DATA RACE" in so:
+            # race side-car (runtime monitoring, outside the family): the detector's report is the verdict.
+            # Its replay file is the stress configuration of this shard; it is not schedule-replayable.
+            path = os.path.join(REPLAYS, "%s-race-%d-%d.json" % (prop, seed, sh))
+            i = so.index("WARNING: DATA RACE")
+            json.dump({"property": prop, "oracle": "race-detector", "race_binary": True, "race_sidecar": True,
+                       "worker": {"tier": tier, "seed": seed, "shard": sh, "nshards": nshards, "count": count, "budget": budget},
+                       "observed": so[i:i + 6000]}, open(path, "w"), indent=1)
+            races.append({"oracle": "race-detector", "detail": so[i:i + 1500], "replay": path, "race": True, "sidecar": True})
+            continue
         if p.returncode != 0 or not os.path.exists(out):
             trouble.append("worker %d: exit %s\n%s" % (sh, p.returncode, so[-4000:]))
             continue
         results.append(json.load(open(out)))
+    if races:
+        results.append({"evaluations": 0, "steps": 0, "ticks": 0, "wall_s": 0, "violations": races, "race": True})
     return results, trouble
 
 
@@ -157,6 +169,18 @@ def replay_once(binary, prop, path, tmpdir):
     return json.load(open(out)), p.stdout
 
 
+def replay_sidecar(binary, path, tmpdir):
+    rep = json.load(open(path))
+    w = rep["worker"]
+    d = os.path.join(tmpdir, "sidecar-%d" % time.time_ns())
+    os.makedirs(d)
+    e = dict(ENV)
+    e.update(VERIF_PROP=rep["property"], VERIF_TIER=w["tier"], VERIF_SEED=str(w["seed"]), VERIF_SHARD=str(w["shard"]), VERIF_NSHARDS=str(w["nshards"]),
+             VERIF_COUNT=str(w["count"]), VERIF_BUDGET_S=str(w["budget"]), VERIF_OUT=os.path.join(d, "o.json"), VERIF_REPLAY_DIR=d)
+    p = subprocess.run([binary, "-test.run", "^TestWorker$", "-test.timeout", "0"], env=e, cwd=d, stdout=subprocess.PIPE, stderr=subprocess.STDOUT, text=True)
+    return "WARNING: DATA RACE" in p.stdout
+
+
 def merge(results):
     m = dict(evaluations=0, steps=0, ticks=0, sim_ns=0, fired={}, classes={}, known={}, known_n={}, violations=[], samples=[],
              nontrivial=set(), points={}, truncated=False, worker_wall=[])
@@ -164,6 +188,8 @@ def merge(results):
         m["evaluations"] += r["evaluations"]
         m["steps"] += r["steps"]
         m["ticks"] += r["ticks"]
+        if r.get("race") and r["evaluations"]:
+            m["race_evaluations"] = m.get("race_evaluations", 0) + r["evaluations"]
         m["sim_ns"] += r.get("sim_ns", 0)
         for k, v in (r.get("fired") or {}).items():
             m["fired"][k] = m["fired"].get(k, 0) + v
@@ -242,7 +268,7 @@ def _check(prop, tier, cfg, seed, t0, ev_path, tmpdir):
 
         def go(key, *a, **k):
             box[key] = run_workers(*a, **k)
-        th = threading.Thread(target=go, args=("race", race_binary, prop, tier, seed + 1000003, n_race, max(1, count // 4), budget), kwargs=dict(tmpdir=d2))
+        th = threading.Thread(target=go, args=("race", race_binary, prop, tier + "-race", seed + 1000003, n_race, max(1, count // 4), budget), kwargs=dict(tmpdir=d2))
         th.start()
         go("plain", binary, prop, tier, seed, n_plain, count, budget, tmpdir=d1)
         th.join()
@@ -265,6 +291,12 @@ def _check(prop, tier, cfg, seed, t0, ev_path, tmpdir):
     confirmed, unconfirmed = [], []
     for v in m["violations"]:
         b = race_binary if v.get("race") else binary
+        if v.get("sidecar"):
+            if replay_sidecar(b, v["replay"], tmpdir):
+                confirmed.append(v)
+            else:
+                unconfirmed.append((v, "race detector did not report again on a second run of the same stress configuration"))
+            continue
         rr, so = replay_once(b, prop, v["replay"], tmpdir)
         if rr is not None and rr.get("reproduced"):
             confirmed.append(v)
@@ -307,6 +339,7 @@ def _check(prop, tier, cfg, seed, t0, ev_path, tmpdir):
             "distinct_classes_by_kind": class_kinds(m["classes"]),
             "schedule_classes_top": dict(sorted(m["classes"].items(), key=lambda kv: -kv[1])[:40]),
             "known_findings_seen": m["known_n"],
+            "evaluations_in_race_binary": m.get("race_evaluations", 0),
             "components": COMPONENTS,
             "build_s": round(bt, 2),
         },
@@ -362,6 +395,16 @@ def replay(path):
     binary, _ = build(race)
     tmpdir = os.path.join(BIN, "work-replay-%d" % os.getpid())
     os.makedirs(tmpdir, exist_ok=True)
+    if rep.get("race_sidecar"):
+        try:
+            again = replay_sidecar(binary, os.path.abspath(path), tmpdir)
+        finally:
+            shutil.rmtree(tmpdir, ignore_errors=True)
+        if again:
+            print("VIOLATION property=%s replay=%s" % (prop, path))
+            return 1
+        print("race detector stayed quiet on this tree")
+        return 0
     try:
         rr, so = replay_once(binary, prop, os.path.abspath(path), tmpdir)
     finally:
